@@ -24,6 +24,51 @@ theorem inv_atom_ty {v : Val} {t : Ty} (hw : v.wt = true) (h : v.typeOf = t) (ha
   | some _ => simp only [Val.typeOf] at h; subst h; simp [Ty.isAtomTy] at ha
   | list _ _ => simp only [Val.typeOf] at h; subst h; simp [Ty.isAtomTy] at ha
   | map big _ _ _ _ _ => simp only [Val.typeOf] at h; subst h; cases big <;> simp [Ty.isAtomTy] at ha
+  | left _ _ => simp only [Val.typeOf] at h; subst h; simp [Ty.isAtomTy] at ha
+  | right _ _ => simp only [Val.typeOf] at h; subst h; simp [Ty.isAtomTy] at ha
+  | set _ _ => simp only [Val.typeOf] at h; subst h; simp [Ty.isAtomTy] at ha
+
+theorem inv_bool {v : Val} (hw : v.wt = true) (h : v.typeOf = .bool) : ∃ b, v = .atom (.bool b) := by
+  obtain ⟨a, rfl, ha⟩ := inv_atom_ty hw h rfl
+  cases a <;> simp [Atom.ty] at ha
+  exact ⟨_, rfl⟩
+
+theorem inv_or {v : Val} {a b : Ty} (hw : v.wt = true) (h : v.typeOf = .or a b) :
+    (∃ x, v = .left x b ∧ x.wt = true ∧ x.typeOf = a) ∨ (∃ x, v = .right a x ∧ x.wt = true ∧ x.typeOf = b) := by
+  cases v with
+  | atom x => cases x <;> simp [Val.typeOf, Atom.ty] at h
+  | ticket cls _ ct _ => simp only [Val.wt, beq_iff_eq] at hw; subst hw; simp [Val.typeOf] at h
+  | pair _ _ => simp [Val.typeOf] at h
+  | none _ => simp [Val.typeOf] at h
+  | some _ => simp [Val.typeOf] at h
+  | list _ _ => simp [Val.typeOf] at h
+  | map big _ _ _ _ _ => cases big <;> simp [Val.typeOf] at h
+  | left x rt =>
+    simp only [Val.typeOf, Ty.or.injEq] at h; simp only [Val.wt] at hw
+    obtain ⟨h1, rfl⟩ := h
+    exact Or.inl ⟨x, rfl, hw, h1⟩
+  | right lt x =>
+    simp only [Val.typeOf, Ty.or.injEq] at h; simp only [Val.wt] at hw
+    obtain ⟨rfl, h2⟩ := h
+    exact Or.inr ⟨x, rfl, hw, h2⟩
+  | set _ _ => simp [Val.typeOf] at h
+
+theorem inv_set {v : Val} {t : Ty} (hw : v.wt = true) (h : v.typeOf = .set t) :
+    ∃ xs, v = .set t xs ∧ xs.Nodup ∧ ∀ a ∈ xs, a.ty = t := by
+  cases v with
+  | atom x => cases x <;> simp [Val.typeOf, Atom.ty] at h
+  | ticket cls _ ct _ => simp only [Val.wt, beq_iff_eq] at hw; subst hw; simp [Val.typeOf] at h
+  | pair _ _ => simp [Val.typeOf] at h
+  | none _ => simp [Val.typeOf] at h
+  | some _ => simp [Val.typeOf] at h
+  | list _ _ => simp [Val.typeOf] at h
+  | map big _ _ _ _ _ => cases big <;> simp [Val.typeOf] at h
+  | left _ _ => simp [Val.typeOf] at h
+  | right _ _ => simp [Val.typeOf] at h
+  | set t' xs =>
+    simp only [Val.typeOf, Ty.set.injEq] at h; subst h
+    simp only [Val.wt, Bool.and_eq_true, nodupB_iff, List.all_eq_true, beq_iff_eq] at hw
+    exact ⟨xs, rfl, hw.1, hw.2⟩
 
 theorem inv_nat {v : Val} (hw : v.wt = true) (h : v.typeOf = .nat) : ∃ n, v = .atom (.nat n) := by
   obtain ⟨a, rfl, ha⟩ := inv_atom_ty hw h rfl
@@ -43,6 +88,9 @@ theorem inv_pair {v : Val} {a b : Ty} (hw : v.wt = true) (h : v.typeOf = .pair a
   | some _ => simp [Val.typeOf] at h
   | list _ _ => simp [Val.typeOf] at h
   | map big _ _ _ _ _ => cases big <;> simp [Val.typeOf] at h
+  | left _ _ => simp [Val.typeOf] at h
+  | right _ _ => simp [Val.typeOf] at h
+  | set _ _ => simp [Val.typeOf] at h
 
 theorem inv_option {v : Val} {t : Ty} (hw : v.wt = true) (h : v.typeOf = .option t) :
     v = .none t ∨ ∃ x, v = .some x ∧ x.wt = true ∧ x.typeOf = t := by
@@ -54,6 +102,9 @@ theorem inv_option {v : Val} {t : Ty} (hw : v.wt = true) (h : v.typeOf = .option
   | some x => simp only [Val.typeOf, Ty.option.injEq] at h; simp only [Val.wt] at hw; exact Or.inr ⟨x, rfl, hw, h⟩
   | list _ _ => simp [Val.typeOf] at h
   | map big _ _ _ _ _ => cases big <;> simp [Val.typeOf] at h
+  | left _ _ => simp [Val.typeOf] at h
+  | right _ _ => simp [Val.typeOf] at h
+  | set _ _ => simp [Val.typeOf] at h
 
 theorem inv_list {v : Val} {t : Ty} (hw : v.wt = true) (h : v.typeOf = .list t) :
     ∃ xs, v = .list t xs ∧ ∀ x ∈ xs, x.typeOf = t ∧ x.wt = true := by
@@ -68,6 +119,9 @@ theorem inv_list {v : Val} {t : Ty} (hw : v.wt = true) (h : v.typeOf = .list t) 
     simp only [Val.wt] at hw
     exact ⟨xs, rfl, (wtList_iff _ _).mp hw⟩
   | map big _ _ _ _ _ => cases big <;> simp [Val.typeOf] at h
+  | left _ _ => simp [Val.typeOf] at h
+  | right _ _ => simp [Val.typeOf] at h
+  | set _ _ => simp [Val.typeOf] at h
 
 theorem inv_ticket {v : Val} {t : Ty} (hw : v.wt = true) (h : v.typeOf = .ticket t) :
     ∃ tk ct a, v = .ticket (.ticket t) tk ct a ∧ ct.ty = t := by
@@ -82,6 +136,9 @@ theorem inv_ticket {v : Val} {t : Ty} (hw : v.wt = true) (h : v.typeOf = .ticket
   | some _ => simp [Val.typeOf] at h
   | list _ _ => simp [Val.typeOf] at h
   | map big _ _ _ _ _ => cases big <;> simp [Val.typeOf] at h
+  | left _ _ => simp [Val.typeOf] at h
+  | right _ _ => simp [Val.typeOf] at h
+  | set _ _ => simp [Val.typeOf] at h
 
 theorem inv_map {v : Val} {k t : Ty} (big : Bool) (hw : v.wt = true)
     (h : v.typeOf = (if big then .bigMap k t else .map k t)) :
@@ -93,6 +150,9 @@ theorem inv_map {v : Val} {k t : Ty} (big : Bool) (hw : v.wt = true)
   | none _ => cases big <;> simp [Val.typeOf] at h
   | some _ => cases big <;> simp [Val.typeOf] at h
   | list _ _ => cases big <;> simp [Val.typeOf] at h
+  | left _ _ => cases big <;> simp [Val.typeOf] at h
+  | right _ _ => cases big <;> simp [Val.typeOf] at h
+  | set _ _ => cases big <;> simp [Val.typeOf] at h
   | map big' k' t' keys vals rm =>
     have : big' = big ∧ k' = k ∧ t' = t := by
       cases big <;> cases big' <;> simp [Val.typeOf] at h <;> simp [h]
@@ -380,12 +440,10 @@ theorem ty_push {c : Cfg} {t : Ty} {v : Val} {pre act : List Val} {s s' : State}
     split at h
     · cases h
     · split at h
+      · simp only [pure, Except.pure, Except.ok.injEq] at h
+        subst h
+        exact ⟨_, hs.push _, STy.cons hv.1 hv.2 hty⟩
       · cases h
-      · split at h
-        · simp only [pure, Except.pure, Except.ok.injEq] at h
-          subst h
-          exact ⟨_, hs.push _, STy.cons hv.1 hv.2 hty⟩
-        · cases h
   · cases ht
 
 theorem ty_emptyMap {c : Cfg} {k v : Ty} {pre act : List Val} {s s' : State} {Γ Γ' : List Ty}
@@ -410,6 +468,44 @@ theorem ty_emptyBigMap {c : Cfg} {k v : Ty} {pre act : List Val} {s s' : State} 
   · simp only [pure, Except.pure, Except.ok.injEq] at h
     subst h
     exact ⟨_, hs.push _, STy.cons (by simp [Val.wt, Val.wtList, nodupB]) (by simp [Val.typeOf]) hty⟩
+  · cases h
+
+theorem ty_left {c : Cfg} {t : Ty} {pre act : List Val} {s s' : State} {Γ Γ' : List Ty}
+    (ht : tySimple c (.left t) Γ = some Γ') (hs : Shape pre act s) (hty : STy act Γ) (h : simple c s (.left t) = some (.ok s')) :
+    ∃ act', Shape pre act' s' ∧ STy act' Γ' := by
+  simp only [tySimple] at ht
+  split at ht
+  · simp only [Option.some.injEq] at ht; subst ht
+    obtain ⟨x, r1, rfl, hx1, hx2, h1⟩ := hty.cons_inv
+    obtain ⟨hp, hs1⟩ := hs.pop1
+    simp only [simple, hp, bind, Except.bind, pure, Except.pure, Option.some.injEq, Except.ok.injEq] at h
+    subst h
+    exact ⟨_, hs1.push _, STy.cons (by simp [Val.wt, hx1]) (by simp [Val.typeOf, hx2]) h1⟩
+  · cases ht
+
+theorem ty_right {c : Cfg} {t : Ty} {pre act : List Val} {s s' : State} {Γ Γ' : List Ty}
+    (ht : tySimple c (.right t) Γ = some Γ') (hs : Shape pre act s) (hty : STy act Γ) (h : simple c s (.right t) = some (.ok s')) :
+    ∃ act', Shape pre act' s' ∧ STy act' Γ' := by
+  simp only [tySimple] at ht
+  split at ht
+  · simp only [Option.some.injEq] at ht; subst ht
+    obtain ⟨x, r1, rfl, hx1, hx2, h1⟩ := hty.cons_inv
+    obtain ⟨hp, hs1⟩ := hs.pop1
+    simp only [simple, hp, bind, Except.bind, pure, Except.pure, Option.some.injEq, Except.ok.injEq] at h
+    subst h
+    exact ⟨_, hs1.push _, STy.cons (by simp [Val.wt, hx1]) (by simp [Val.typeOf, hx2]) h1⟩
+  · cases ht
+
+theorem ty_emptySet {c : Cfg} {t : Ty} {pre act : List Val} {s s' : State} {Γ Γ' : List Ty}
+    (ht : tySimple c (.emptySet t) Γ = some Γ') (hs : Shape pre act s) (hty : STy act Γ)
+    (h : simple c s (.emptySet t) = some (.ok s')) : ∃ act', Shape pre act' s' ∧ STy act' Γ' := by
+  simp only [tySimple] at ht
+  simp only [Option.some.injEq] at ht; subst ht
+  simp only [simple, Option.some.injEq] at h
+  split at h
+  · simp only [pure, Except.pure, Except.ok.injEq] at h
+    subst h
+    exact ⟨_, hs.push _, STy.cons (by simp [Val.wt, nodupB]) (by simp [Val.typeOf]) hty⟩
   · cases h
 
 end Impl.Tickets
